@@ -86,7 +86,7 @@ func C03(c *Ctx) {
 			continue
 		}
 		for _, w := range c.wiring {
-			if w.Before && w.Const && pkgOf(w.In) == vm.pkg && w.Handler != nil {
+			if w.Before && w.Const && !w.Conditional && pkgOf(w.In) == vm.pkg && w.Handler != nil {
 				listens[vm.pkg][w.Event] = w.Handler
 			}
 		}
